@@ -381,3 +381,79 @@ if __name__ == "__main__":
         print("==", n, "covered paths", cov, "obligations", len(obs))
         for o in obs:
             print("  ", o.verdict, o.name, (o.detail or "")[:200] if o.verdict != core.PROVED else "")
+
+
+def target_wiring():
+    """Which IR nodes the scope functions are applied to: _construct_symbol_tables, _resolve_symbols_from_table,
+    resolve_field_references and resolve_symbols, over the callee contract of traverse_ir.fast_traverse_ir_top_down (assumed:
+    applies the action to every node of the pattern classes, top-down, threading the dicts returned by the incidental
+    actions into the parameters of everything below, not descending below the skip classes).  Each traversal is recorded as
+    (pattern classes, action, incidental actions, skip classes, parameter names); a traversal may report errors (choice)."""
+    sr = importlib.import_module(SR)
+    ir_data = importlib.import_module("compiler.util.ir_data")
+    traverse_ir = importlib.import_module("compiler.util.traverse_ir")
+    eng = pyvc.Engine()
+    log = []
+    inject = {}
+
+    def traverse(interp, ir, pattern, action, incidental_actions=None, skip_descendants_of=(), parameters=None):
+        log.append((tuple(pattern), action, dict(incidental_actions or {}), set(skip_descendants_of), dict(parameters or {})))
+        if inject.get(len(log)):
+            parameters["errors"].append("ERR%d" % len(log))
+    eng.contract(traverse_ir.fast_traverse_ir_top_down, traverse, "traverse_ir.fast_traverse_ir_top_down")
+    SCOPES = {ir_data.Module: sr._set_scope_for_module, ir_data.TypeDefinition: sr._set_scope_for_type_definition}
+    VIS = {ir_data.TypeDefinition: sr._set_visible_scopes_for_type_definition, ir_data.Module: sr._set_visible_scopes_for_module, ir_data.Attribute: sr._set_visible_scopes_for_attribute}
+
+    def harness(c):
+        fn = c.choice("f", ["_construct_symbol_tables", "_resolve_symbols_from_table", "resolve_field_references", "resolve_symbols"])
+        del log[:]
+        inject.clear()
+        c.covered = True
+        if fn == "_construct_symbol_tables":
+            err_at = int(c.choice("duplicate-name-error-in-pass", ["0", "2", "3", "4", "5"]))
+            if err_at:
+                inject[err_at] = True
+            st, got = pyvc.run_body(c, SR + "." + fn, ["IR"])
+            ok_shape = isinstance(got, tuple) and len(got) == 2 and isinstance(got[0], dict)
+            c.oblige("returns-(tables,errors)", ok_shape and got[1] == (["ERR%d" % err_at] if err_at else []), detail=repr(got)[:200])
+            want = [((ir_data.Module,), sr._add_module_to_scope, {}), ((ir_data.TypeDefinition,), sr._add_type_name_to_scope, {ir_data.Module: sr._set_scope_for_module}),
+                    ((ir_data.EnumValue,), sr._add_enum_value_to_scope, SCOPES), ((ir_data.Field,), sr._add_struct_field_to_scope, SCOPES), ((ir_data.RuntimeParameter,), sr._add_parameter_name_to_scope, SCOPES)]
+            if err_at == 2:
+                want = want[:2]          # colliding type names: the names inside them would collide spuriously
+            c.oblige("every-kind-of-definition-is-entered-in-the-scope-of-its-enclosing-definition", [(x[0], x[1], x[2]) for x in log] == want and all(not x[3] for x in log),
+                     detail=repr([(tuple(k.__name__ for k in x[0]), x[1].__name__) for x in log]))
+            c.oblige("one-table-and-one-error-list-shared-by-all-passes", all(x[4].get("scope") is log[0][4].get("scope") and x[4].get("errors") is log[0][4].get("errors") for x in log) and ok_shape and got[0] is log[0][4].get("scope"))
+            return
+        if fn == "_resolve_symbols_from_table":
+            err_at = int(c.choice("error-in-pass", ["0", "1", "2", "3"]))
+            if err_at:
+                inject[err_at] = True
+            table = {"t": 1}
+            st, got = pyvc.run_body(c, SR + "." + fn, ["IR", table])
+            want = [((ir_data.Import,), sr._add_import_to_scope, {ir_data.Module: sr._module_source_from_table_action}, set()),
+                    ((ir_data.Reference,), sr._resolve_reference, VIS, {ir_data.FieldReference}), ((ir_data.FieldReference,), sr._resolve_head_of_field_reference, VIS, set())]
+            if err_at == 1:
+                want = want[:1]
+            c.oblige("imports-then-every-plain-reference-then-every-field-reference-head-each-with-the-visible-scopes-of-its-place", [(x[0], x[1], x[2], x[3]) for x in log] == want,
+                     detail=repr([(tuple(k.__name__ for k in x[0]), x[1].__name__, sorted(k.__name__ for k in x[3])) for x in log]))
+            c.oblige("searched-in-the-given-table-errors-collected", all(x[4].get("table") is table for x in log) and got == (["ERR%d" % err_at] if err_at else []) and all(x[4].get("field", 0) is None for x in log[1:]), detail=repr(got))
+            return
+        if fn == "resolve_field_references":
+            st, got = pyvc.run_body(c, SR + "." + fn, ["IR"])
+            c.oblige("every-field-reference-gets-its-members-resolved", len(log) == 1 and log[0][0] == (ir_data.FieldReference,) and log[0][1] is sr._resolve_field_reference and log[0][2] == VIS and not log[0][3]
+                     and log[0][4].get("field", 0) is None and got == [], detail=repr([(tuple(k.__name__ for k in x[0]), x[1].__name__) for x in log]))
+            return
+        bad = c.choice("table-construction", ["clean", "errors"])
+        calls = []
+        eng.contract(sr._construct_symbol_tables, lambda interp, ir: (calls.append("construct") or {"T": 1}, ["E"] if bad == "errors" else []), "_construct_symbol_tables")
+        eng.contract(sr._resolve_symbols_from_table, lambda interp, ir, table: (calls.append(("resolve", table)) or ["R"]), "_resolve_symbols_from_table")
+        st, got = pyvc.run_body(c, SR + ".resolve_symbols", ["IR"])
+        if bad == "errors":
+            c.oblige("duplicate-definitions-stop-resolution-and-are-reported", got == ["E"] and calls == ["construct"], detail=repr((got, calls)))
+        else:
+            c.oblige("references-are-resolved-against-the-constructed-tables", got == ["R"] and calls == ["construct", ("resolve", {"T": 1})], detail=repr((got, calls)))
+    paths = eng.explore(harness)
+    return pyvc.collect(paths, "resolver_wiring"), sum(1 for p in paths if p.covered)
+
+
+TARGETS["resolver_wiring"] = target_wiring
